@@ -148,9 +148,7 @@ def run(ctx):
         tags_seen.setdefault(real_lid, set()).update(tg)
         attrs_seen.setdefault(real_lid, set()).update(at)
         if v:
-            if o[1] == 1 and o[2] == 0 and c06_tree.d7_shape(nodes):
-                known_hits.append({"input": line, "lang": real_lid, "why": v[:2]})
-                continue
+            # finding D7 (string-table entry trimmed in place) was repaired in /repo (6829a7f): its shape is an ordinary violation now
             concrete.append({"input": line, "lang": real_lid, "kind": kind, "options": {"version": o[0], "use_strtbl": o[1], "keep_ws": o[2], "anonymous": o[3]},
                              "oracle": v[:4], "c": ca[i].partition(" | ")[2][:4000]})
         else:
